@@ -5,6 +5,7 @@ package qframe
 
 import (
 	"bytes"
+	"math"
 	"strings"
 
 	"github.com/tobgu/qframe/config/csv"
@@ -26,6 +27,10 @@ func VX_C13_roundtrip() {
 	header, emptyNull := vx.ParamBool("header"), vx.ParamBool("emptynull")
 	reorder := vx.ParamBool("reorder")
 	P := n + 1
+	full := vx.HasParam("ix") && vx.ParamStr("ix") == "full"
+	if full {
+		P = n // every physical row is in the frame, in a different order
+	}
 	all := []string{"a", "b"}
 	names := all[:len(typs)]
 	cols := make([]vxCol, len(typs))
@@ -47,6 +52,15 @@ func VX_C13_roundtrip() {
 	ix := make([]uint32, n)
 	for k := range ix {
 		ix[k] = uint32(n - k) // rows P-1 .. 1 in reverse order
+	}
+	if full {
+		// a permutation that keeps the last row in place: 1,0,2,...
+		for k := range ix {
+			ix[k] = uint32(k)
+		}
+		if n >= 2 {
+			ix[0], ix[1] = 1, 0
+		}
 	}
 	f := vxFrame(names, cols, ix)
 	// write
@@ -106,5 +120,33 @@ func VX_C13_roundtrip() {
 		}
 	}
 	vxCheckFrameVal(g, order, ocols, ix, "round trip")
+	vx.Reach("end")
+}
+
+// VX_C13_specials: concrete numbers run through the real strconv/ToCSV/ReadCSV code
+// (the number-text model is not involved): bit-identical floats incl. -0, infinities,
+// subnormals; ints at the extremes.
+func VX_C13_specials() {
+	fs := []float64{math.Copysign(0, -1), 0, 0.1, -2.5e-7, 1e21, 123456789, 1e300, 5e-324, math.Inf(1), math.Inf(-1), math.NaN(), 1.7976931348623157e308, 0.30000000000000004}
+	is := make([]int, len(fs))
+	for k := range is {
+		is[k] = []int{0, -1, 1, math.MaxInt64, math.MinInt64, 10, -10, 1000000007}[k%8]
+	}
+	pick := vxConc(vx.IntN(0, len(fs)-1), len(fs)) // which row goes first: the solver enumerates
+	fs[0], fs[pick] = fs[pick], fs[0]
+	f := New(map[string]interface{}{"f": fs, "i": is})
+	w := &vxBuf{}
+	vx.Check(f.ToCSV(w) == nil, "ToCSV: no error")
+	g := ReadCSV(bytes.NewReader(w.b), csv.Types(map[string]string{"f": "float", "i": "int"}))
+	vx.Check(g.Err == nil && g.Len() == len(fs), "ReadCSV: no error")
+	if g.Err != nil || g.Len() != len(fs) {
+		return
+	}
+	fv, iv := g.MustFloatView("f"), g.MustIntView("i")
+	for k := range fs {
+		x := fv.ItemAt(k)
+		vx.Check(math.Float64bits(x) == math.Float64bits(fs[k]) || (x != x && fs[k] != fs[k]), "float comes back bit-identical (NaN preserved)")
+		vx.Check(iv.ItemAt(k) == is[k], "int comes back identical")
+	}
 	vx.Reach("end")
 }
